@@ -27,12 +27,12 @@ PROFILES = {
     "C07": [("ttl", 10), ("mix", 8), ("burst", 8)],
     "C08": [("ttl", 10), ("seq", 14), ("mix", 6)],
     "C09": [("ttl", 15), ("seq", 8), ("reads", 5)],
-    "C10": [("ttl", 20), ("seq", 8)],
+    "C10": [("ttl", 18), ("seq", 8), ("evictrace", 6)],
     "C11": [("burst", 20), ("mix", 8)],
     "C13": [("shutdown", 15), ("shutrace", 150), ("mix", 4)],
     "C15": [("reads", 25), ("mix", 5)],
     "C16": [("stats", 15), ("allhit", 6), ("mix", 6)],
-    "C17": [("boundary", 20), ("mix", 6), ("pressure", 4), ("ttl", 4)],
+    "C17": [("boundary", 20), ("evictrace", 14), ("mix", 5), ("pressure", 3), ("ttl", 3)],
 }
 
 PLANS = {}
@@ -104,3 +104,12 @@ PLANS["C18"] = {
     ],
     "rule": "a case is a combination of recorded critical sections (one per thread slot) and an interleaving of them in Locks.tla; plus every harness run doubles as a hang detector; plus free-running stress rounds under a watchdog",
 }
+
+# free-running stress rounds whose quiescent end states are judged by TLC (TraceFinal.tla): real concurrency inside Pool::add etc.
+STRESS_FINAL_Q = {"name": "stress-final", "cmd": "stress --seed {seed} --rounds 12 --threads 8 --ops 4000 --reads-pct 85", "trace_spec": "TraceFinal"}
+STRESS_FINAL_T = {"name": "stress-final", "cmd": "stress --seed {seed} --rounds 200 --threads 8 --ops 6000 --reads-pct 85", "trace_spec": "TraceFinal"}
+STRESS_MIX_Q = {"name": "stress-mix", "cmd": "stress --seed {seed} --rounds 12 --threads 4 --ops 2000 --reads-pct 30", "trace_spec": "TraceFinal"}
+STRESS_MIX_T = {"name": "stress-mix", "cmd": "stress --seed {seed} --rounds 200 --threads 6 --ops 3000 --reads-pct 30", "trace_spec": "TraceFinal"}
+for p, q, t in [("C15", [STRESS_FINAL_Q], [STRESS_FINAL_T]), ("C16", [STRESS_MIX_Q], [STRESS_MIX_T]), ("C05", [STRESS_MIX_Q], [STRESS_MIX_T])]:
+    PLANS[p]["direct"] = {"quick": q, "thorough": t}
+    PLANS[p]["assumptions"] = PLANS[p]["assumptions"] + ["free-running stress rounds (no scheduler) are judged only at their quiescent end state, by the same identities (TraceFinal.tla)"]
